@@ -19,6 +19,8 @@ import PowHsm.Admin.CertParse
 import PowHsm.Admin.Verify
 import PowHsm.Admin.SignerAuth
 import PowHsm.Admin.IntelHex
+import PowHsm.Admin.Commands
+import PowHsm.Spec.C18
 namespace PowHsm
 namespace Ops
 open Ledger Comm Dongle Spec
@@ -359,6 +361,39 @@ def hexhash (input implOut : Json) : Option (Json × Bool) := do
     | none => true
   pure (model, ok && model.normalize == implOut.normalize)
 
+def strList (j : Option Json) : List String :=
+  match j with
+  | some (.arr xs) => xs.filterMap Json.asStr?
+  | _ => []
+
+/-- C18: the admin commands against a scripted device and a scripted operator -/
+def admin (input implOut : Json) : Option (Json × Bool) := do
+  let w0 ← worldOfJson input
+  let w : World := { w0 with stdinLines := strList (input.get? "stdin"), getpassLines := strList (input.get? "getpass"),
+                             seed := ((input.get? "seed").bind Json.asBytes?).getD [] }
+  let cmd ← (← input.get? "cmd").asStr?
+  let optStr (k : String) : Option String := match input.get? k with | some (.str s) => some s | _ => none
+  let flag (k : String) : Bool := (input.get? k).bind Json.asBool? == some true
+  let o : Admin.Options := { pin := optStr "pin", newPin := optStr "new_pin", anyPin := flag "any_pin",
+                             noUnlock := flag "no_unlock", noExec := flag "no_exec",
+                             hasOutput := (input.get? "has_output").bind Json.asBool? != some false }
+  let finish {α : Type} (r : Res α) (extra : α → List (String × Json)) : Json :=
+    match r.val with
+    | .ok a => .obj ([("ok", .bool true), ("events", evsToJson r.evs)] ++ extra a)
+    | .error e => .obj [("ok", .bool false), ("events", evsToJson r.evs),
+                        ("exc", .str (if e == .exception then "AdminError" else e.name))]
+  let model : Json ← (match cmd with
+    | "unlock" => some (finish (Admin.doUnlock o true false w) fun _ => [])
+    | "onboard" => some (finish (Admin.doOnboard o w) fun _ => [])
+    | "changepin" => some (finish (Admin.doChangePin o w) fun _ => [])
+    | "pubkeys" => some (finish (Admin.doGetPubkeys o w) fun ks => [("pubkeys", .arr (ks.map Json.ofBytes))])
+    | _ => none)
+  let ievs ← evsOfJson? (← implOut.get? "events")
+  let iok ← (← implOut.get? "ok").asBool?
+  let ok := Spec.C18.c18 cmd o.anyPin (if cmd == "changepin" then o.newPin.isSome else o.pin.isSome) w.seed
+    w.stdinLines w.script { events := ievs, ok := iok }
+  pure (model, ok)
+
 def run (op : String) (input implOut : Json) : Option (Json × Bool) :=
   match op with
   | "unsign" => unsign input implOut
@@ -390,6 +425,7 @@ def run (op : String) (input implOut : Json) : Option (Json × Bool) :=
   | "verify" => verify input implOut
   | "sigauth" => sigauth input implOut
   | "hexhash" => hexhash input implOut
+  | "admin" => admin input implOut
   | _ => none
 
 end Ops
